@@ -22,6 +22,11 @@ pub struct Case {
     /// when true the cut values are absolute offsets (exhaustive enumeration)
     #[serde(default)]
     pub absolute: bool,
+    /// regular chunking for long streams: (chunk size, lead): the first chunk has chunk + lead bytes,
+    /// every later one `chunk` bytes (so that with one pull per chunk a backlog of about `lead`
+    /// bytes stays buffered and the buffer never runs dry); replaces `cuts`
+    #[serde(default)]
+    pub regular: Option<(u32, u32)>,
 }
 
 fn frame_bytes(len: u32, seed: u64) -> Vec<u8> {
@@ -47,6 +52,15 @@ fn test(c: &Case, st: &mut Stats) -> TestResult {
             }
         })
         .collect();
+    if let Some((chunk, lead)) = c.regular {
+        cuts.clear();
+        let chunk = (chunk as usize).max(1);
+        let mut at = chunk + lead as usize;
+        while at < stream.len() {
+            cuts.push(at);
+            at += chunk;
+        }
+    }
     cuts.sort();
     cuts.push(stream.len());
 
@@ -211,6 +225,7 @@ pub fn run(ctx: &Ctx) -> EvidenceMeta {
                     cuts: cuts.clone(),
                     pulls,
                     absolute: true,
+                    regular: None,
                 });
             }
         }
@@ -253,6 +268,7 @@ pub fn run(ctx: &Ctx) -> EvidenceMeta {
                     cuts,
                     pulls,
                     absolute: false,
+                    regular: None,
                 })
         },
         test,
@@ -278,7 +294,34 @@ pub fn run(ctx: &Ctx) -> EvidenceMeta {
                     cuts,
                     pulls,
                     absolute: false,
+                    regular: None,
                 })
+        },
+        test,
+    );
+    // long steady streams with a backlog: thousands of small frames, regular chunks, one or a few
+    // pulls per chunk, the buffer never empty (whatever the buffer does internally to avoid copying
+    // - cursors, rings, compaction - is exercised over many wraps)
+    ctx.proptest(
+        "backlog-streams",
+        ctx.n(20, 1_000),
+        || {
+            (0u32..=40, any::<u64>(), 1u32..=6, 0u32..=300, prop_oneof![Just(40_000u32), Just(70_000u32), Just(140_000u32)], any::<bool>()).prop_map(|(size, seed, per, lead, total, vary)| {
+                let n = (total / (size + 2)).max(1);
+                let frames: Vec<(u32, u64)> = (0..n)
+                    .map(|i| {
+                        let l = if vary { (size + (seed.rotate_left(i % 64) as u32 % 3)).min(65_535) } else { size };
+                        (l, seed.wrapping_add(i as u64))
+                    })
+                    .collect();
+                Case {
+                    frames,
+                    cuts: vec![],
+                    pulls: vec![per as u8],
+                    absolute: false,
+                    regular: Some(((size + 2) * per, lead)),
+                }
+            })
         },
         test,
     );
@@ -292,6 +335,7 @@ pub fn run(ctx: &Ctx) -> EvidenceMeta {
             cuts: (1..n as u32).collect(),
             pulls: vec![1],
             absolute: true,
+            regular: None,
         });
     }
     ctx.enumerate("byte-by-byte", &items, test);
